@@ -63,6 +63,10 @@ class _PokTranslator(_util.OverrideableDataDesc):
         self.func = func
         self.posoarg_names = set(posoargs)
         self.kwoarg_names = set(kwoargs)
+        self._own_parameters = {
+            'posoargs': set(posoargs),
+            'kwoargs': set(kwoargs),
+            }
         if isinstance(func, _PokTranslator):
             self._merge_other(func)
         self._prepare()
@@ -161,10 +165,7 @@ class _PokTranslator(_util.OverrideableDataDesc):
         return self.func(*args, **kwargs)
 
     def parameters(self):
-        return {
-            'posoargs': self.posoarg_names,
-            'kwoargs': self.kwoarg_names,
-            }
+        return dict(self._own_parameters)
 
     def __repr__(self):
         return (
